@@ -490,6 +490,75 @@ func checkEscapingClosures(c *core.Ctx, r *core.Rule, prog *core.Prog, pkgPath, 
 
 // checkGlobalRefEscape implements R19.7.
 func checkGlobalRefEscape(c *core.Ctx, r *core.Rule, prog *core.Prog, pkgPath, label string) {
+	checkGlobalRefEscapeOpt(c, r, prog, pkgPath, label, false)
+}
+
+// immutableByAPI: pointer types whose exported API offers no mutation (sharing them is harmless).
+var immutableByAPI = map[string]bool{
+	"*regexp.Regexp": true, "*text/template.Template": true, "*go/token.FileSet": true, "*strings.Replacer": true,
+}
+
+// readOnlyOrSyncSafe: methods of library types that may be called on a
+// package-level variable outside initialisation. The first group never writes;
+// the second group writes but is safe under concurrency and carries no state
+// from one generation to the next that the output could observe.
+var readOnlyOrSyncSafe = map[string]string{
+	"(*sync.Pool).Get": "pool", "(*sync.Pool).Put": "pool",
+	"(*sync.Once).Do": "once", "(*sync.Mutex).Lock": "lock", "(*sync.Mutex).Unlock": "lock",
+	"(*sync.RWMutex).Lock": "lock", "(*sync.RWMutex).Unlock": "lock", "(*sync.RWMutex).RLock": "lock", "(*sync.RWMutex).RUnlock": "lock",
+	"(*sync.Map).Load": "read", "(*sync.Map).Range": "read",
+}
+
+// checkGlobalMethodCalls: a method of a library type invoked on (the address of)
+// a package-level variable outside initialisation must be read-only or one of
+// the synchronisation idioms; anything else (sync.Map.Store, bytes.Buffer.Write,
+// atomic adds) is process-wide state that outlives the call.
+func checkGlobalMethodCalls(c *core.Ctx, r *core.Rule, prog *core.Prog, pkgPath, label string) {
+	pkg := prog.ByPath[pkgPath]
+	if pkg == nil {
+		return
+	}
+	n, bad := 0, 0
+	for _, fn := range core.PkgFuncs(prog.SSA, pkg) {
+		if isInitFunc(fn) || inOnceBody(fn) {
+			continue
+		}
+		for _, call := range core.Calls(fn) {
+			cal := call.Common().StaticCallee()
+			if cal == nil || core.InModule(cal) || cal.Signature.Recv() == nil || len(call.Common().Args) == 0 {
+				continue
+			}
+			if _, isPtr := cal.Signature.Recv().Type().(*types.Pointer); !isPtr {
+				continue
+			}
+			recv := call.Common().Args[0]
+			g, ok := recv.(*ssa.Global)
+			if !ok {
+				if fa, isFA := recv.(*ssa.FieldAddr); isFA {
+					g, ok = fa.X.(*ssa.Global)
+				}
+			}
+			if !ok {
+				continue
+			}
+			n++
+			name := core.FuncName(cal)
+			if _, fine := readOnlyOrSyncSafe[name]; fine {
+				continue
+			}
+			bad++
+			r.Fail(fmt.Sprintf("%s:%s:global-method:%s:%s", label, fnKey(fn), g.Name(), cal.Name()), c.Pos(call.Pos()), fmt.Sprintf("%s is called on the package-level variable %s outside initialisation (in %s): state written here outlives the call and is shared by everything that runs in the process", name, g.Name(), fn.Name()))
+		}
+	}
+	if bad == 0 {
+		r.Pass(fmt.Sprintf("%s: %d library-method calls on package-level variables, all read-only or synchronisation idioms", label, n))
+	}
+}
+
+// checkGlobalRefEscapeOpt: with ptrs set, package-level pointers to mutable
+// structures are covered too (the generator must not weave process-wide objects
+// into the per-document IR, where later passes write to them).
+func checkGlobalRefEscapeOpt(c *core.Ctx, r *core.Rule, prog *core.Prog, pkgPath, label string, ptrs bool) {
 	pkg := prog.ByPath[pkgPath]
 	if pkg == nil {
 		return
@@ -509,8 +578,15 @@ func checkGlobalRefEscape(c *core.Ctx, r *core.Rule, prog *core.Prog, pkgPath, l
 				if !ok || g.Pkg != pkg {
 					continue
 				}
-				switch ld.Type().Underlying().(type) {
+				switch pt := ld.Type().Underlying().(type) {
 				case *types.Slice, *types.Map:
+				case *types.Pointer:
+					if !ptrs || immutableByAPI[types.TypeString(ld.Type(), nil)] {
+						continue
+					}
+					if _, isStruct := pt.Elem().Underlying().(*types.Struct); !isStruct {
+						continue
+					}
 				default:
 					continue
 				}
